@@ -374,6 +374,22 @@ def check_empirical(case):
     require(s1.shape == (256, n) and bool(torch.all((s1 == 0) | (s1 == 1))), "empirical:fresh-shape", "sample(0, num_samples=256) is not a (256, n) 0/1 array")
     require(len({tuple(r) for r in s1.tolist()}) > 1 and not torch.equal(s1, s2), "empirical:default-start-not-random",
             "the default start state is not random: 256 fresh chains coincide, or two different seeds give the same 256 start states")
+    # two calls in a row (no seeding in between) are two independent draws: the default start of the second call is not the first one's
+    # again, and a chain continued across calls keeps moving (every call consumes fresh random numbers of the process-wide generator)
+    qucumber.set_random_seed(case["torch_seed"], cpu=True, gpu=False, quiet=True)
+    a0 = state.sample(0, num_samples=256)
+    rng_mid = torch.get_rng_state()
+    a1 = state.sample(0, num_samples=256)
+    require(not torch.equal(a0, a1), "empirical:consecutive-calls-repeat", "two consecutive sample() calls returned the same 256 random start states (the second call re-used the first call's random numbers)")
+    require(not torch.equal(torch.get_rng_state(), rng_mid), "empirical:consecutive-calls-repeat", "sample() left the process-wide torch generator where it was: the next call repeats its random numbers")
+    if case["k"] >= 1:
+        c1 = state.sample(1, initial_state=start)
+        r1 = torch.get_rng_state()
+        c2 = state.sample(1, initial_state=start)
+        require(not torch.equal(torch.get_rng_state(), r1), "empirical:consecutive-calls-repeat", "a Gibbs step from given chains did not advance the process-wide torch generator")
+        # M = 20000 chains from the same start: two independent one-step draws coincide on every chain only if the kernel row is a point mass
+        if float(T[case["v0"]].max()) < 1 - 1e-3:
+            require(not torch.equal(c1, c2), "empirical:consecutive-calls-repeat", "two consecutive one-step draws from the same start states are identical on all chains")
     return {"nontrivial": nt_arch(sc), "labels": gen.arch_label(sc) + [f"k={case['k']}"]}
 
 
